@@ -11,6 +11,14 @@ package main
 //  (3) the round trip of the `export` mode (import into a fresh node, re-export, canonical dumps equal up to the recomputed
 //      stake values = known finding F15 `stake-recalculation-on-import`, both chains continued with the same blocks), and the
 //      model's `importState` is compared with the re-export (Q importagrees);
+//  (5) an independent cross-check of every export (of the history node and of the imported node) against the node's own
+//      getters, the ones the API serves: export, import and re-export all go through the same Export code, so what that
+//      code leaves out is invisible to (3).  For every address the history knows (the world's accounts, multisig wallets of
+//      the genesis and those created by CreateMultisig transactions, every address that occurs in the data of a generated
+//      transaction, candidate owner/reward/control addresses, coin owners, order owners, the zero and the burn address,
+//      and every exported account) nonce, positive balances, multisig data and stake lock must be what the exported
+//      genesis says (an account missing from it must have none of them); every coin id up to the coin counter, every
+//      candidate, every pool between known coins and every check the history redeemed likewise (export-misses-…).
 //  (4) what the exported states contained (pending stake updates, locked tokens, orders, unused multisig accounts, used checks,
 //      pending votes, deleted candidates, …) is counted in Notes.
 
@@ -20,10 +28,13 @@ import (
 	"math/big"
 	"math/rand"
 	"os"
+	"reflect"
 	"sort"
 	"strings"
 	"time"
 
+	"github.com/MinterTeam/minter-go-node/coreV2/check"
+	"github.com/MinterTeam/minter-go-node/coreV2/state/accounts"
 	tx "github.com/MinterTeam/minter-go-node/coreV2/transaction"
 	"github.com/MinterTeam/minter-go-node/coreV2/types"
 )
@@ -995,7 +1006,451 @@ func exportFeatures(st *types.AppState, height uint64, notes map[string]int) {
 	}
 }
 
+// ---------------------------------------------------------------------------------------------------------------
+// (5) the export against the node's getters
+
+var addressType = reflect.TypeOf(types.Address{})
+
+// collectAddresses adds every types.Address found in v (transaction data: structs, slices, pointers) to out.
+func collectAddresses(v reflect.Value, out map[types.Address]bool, depth int) {
+	if depth > 6 || !v.IsValid() {
+		return
+	}
+	if v.Type() == addressType {
+		if v.CanInterface() {
+			out[v.Interface().(types.Address)] = true
+		}
+		return
+	}
+	switch v.Kind() {
+	case reflect.Ptr, reflect.Interface:
+		if !v.IsNil() {
+			collectAddresses(v.Elem(), out, depth+1)
+		}
+	case reflect.Struct:
+		if v.Type().PkgPath() == "math/big" {
+			return
+		}
+		for i := 0; i < v.NumField(); i++ {
+			if v.Type().Field(i).PkgPath == "" { // exported
+				collectAddresses(v.Field(i), out, depth+1)
+			}
+		}
+	case reflect.Slice, reflect.Array:
+		if v.Type().Elem().Kind() == reflect.Uint8 {
+			return
+		}
+		for i := 0; i < v.Len(); i++ {
+			collectAddresses(v.Index(i), out, depth+1)
+		}
+	}
+}
+
+// watchAddresses records, for every transaction the history delivers, the addresses it mentions and - for CreateMultisig -
+// the address of the wallet it would create (whether the transaction was accepted is the getters' business).
+func watchAddresses(h *Hist, seen map[types.Address]bool) {
+	prev := h.DebugHook
+	h.DebugHook = func(g *GenTx) {
+		if prev != nil {
+			prev(g)
+		}
+		func() {
+			defer func() { recover() }()
+			seen[g.Sender] = true
+			for _, a := range g.Signers {
+				seen[a] = true
+			}
+			if g.Data != nil {
+				collectAddresses(reflect.ValueOf(g.Data), seen, 0)
+			}
+			if g.Type == tx.TypeCreateMultisig {
+				seen[accounts.CreateMultisigAddress(g.Sender, g.Nonce)] = true
+			}
+		}()
+	}
+}
+
+type xcheck struct {
+	msgs  map[string][]string // category -> details
+	count map[string]int
+}
+
+func (x *xcheck) miss(cat, format string, a ...interface{}) {
+	x.count[cat]++
+	if len(x.msgs[cat]) < 4 {
+		x.msgs[cat] = append(x.msgs[cat], fmt.Sprintf(format, a...))
+	}
+}
+
+func msigString(threshold uint64, weights []uint64, addrs []types.Address) string {
+	var parts []string
+	for i, a := range addrs {
+		w := uint64(0)
+		if i < len(weights) {
+			w = weights[i]
+		}
+		parts = append(parts, fmt.Sprintf("%s:%d", hexs(a[:]), w))
+	}
+	return fmt.Sprintf("%d/%s", threshold, strings.Join(parts, ","))
+}
+
+// crossCheckExport compares the exported state st of node n with what n's read-only getters (CurrentState(), as the API) answer.
+// who: "export" or "re-export of the imported chain". Every category of difference is reported once per export.
+func (e *export2) crossCheckExport(n *Node, st *types.AppState, who string, fail func(string)) {
+	x := &xcheck{msgs: map[string][]string{}, count: map[string]int{}}
+	t0 := time.Now()
+	defer func() { e.xstats["exports_checked"]++; e.xstats["milliseconds"] += int(time.Since(t0) / time.Millisecond) }()
+	cs := n.App.CurrentState()
+	guard := func(what string, f func()) {
+		defer func() {
+			if r := recover(); r != nil {
+				x.miss("export-crosscheck-getter-panics", "%s: %s", what, shortPanic(r))
+			}
+		}()
+		f()
+	}
+
+	// ---- accounts
+	exported := map[types.Address]*types.Account{}
+	for i := range st.Accounts {
+		a := &st.Accounts[i]
+		if exported[a.Address] != nil {
+			x.miss("export-duplicates-account", "%s", a.Address.String())
+		}
+		exported[a.Address] = a
+	}
+	addrs := map[types.Address]bool{{}: true, burnAddr: true}
+	for a := range e.univ {
+		addrs[a] = true
+	}
+	for a := range exported {
+		addrs[a] = true
+	}
+	for i := range st.Candidates {
+		c := &st.Candidates[i]
+		addrs[c.OwnerAddress], addrs[c.RewardAddress], addrs[c.ControlAddress] = true, true, true
+		for _, s := range c.Stakes {
+			addrs[s.Owner] = true
+		}
+		for _, s := range c.Updates {
+			addrs[s.Owner] = true
+		}
+	}
+	guard("candidates", func() {
+		for _, c := range cs.Candidates().GetCandidates() {
+			addrs[c.OwnerAddress], addrs[c.RewardAddress], addrs[c.ControlAddress] = true, true, true
+		}
+	})
+	for _, c := range st.Coins {
+		if c.OwnerAddress != nil {
+			addrs[*c.OwnerAddress] = true
+		}
+	}
+	for _, f := range st.FrozenFunds {
+		addrs[f.Address] = true
+	}
+	for _, w := range st.Waitlist {
+		addrs[w.Owner] = true
+	}
+	for _, p := range st.Pools {
+		for _, o := range p.Orders {
+			addrs[o.Owner] = true
+		}
+	}
+	// owners of the multisig wallets are accounts of their own
+	for a := range addrs {
+		guard("multisig owners", func() {
+			if acc := cs.Accounts().GetAccount(a); acc != nil && acc.IsMultisig() {
+				for _, o := range acc.Multisig().Addresses {
+					addrs[o] = true
+				}
+			}
+		})
+	}
+	list := make([]types.Address, 0, len(addrs))
+	for a := range addrs {
+		list = append(list, a)
+	}
+	sort.Slice(list, func(i, j int) bool { return string(list[i][:]) < string(list[j][:]) })
+	e.xstats["addresses_checked"] += len(list)
+	for _, a := range list {
+		a := a
+		guard("account "+a.String(), func() {
+			nonce := cs.Accounts().GetNonce(a)
+			lock := cs.Accounts().GetLockStakeUntilBlock(a)
+			bal := map[uint64]string{}
+			for _, b := range cs.Accounts().GetBalances(a) {
+				if b.Value != nil && b.Value.Sign() > 0 {
+					bal[uint64(b.Coin.ID)] = b.Value.String()
+				}
+			}
+			isMs := cs.Accounts().ExistsMultisig(a)
+			ms := ""
+			if acc := cs.Accounts().GetAccount(a); acc != nil && acc.IsMultisig() {
+				m := acc.Multisig()
+				ws := make([]uint64, len(m.Weights))
+				for i, w := range m.Weights {
+					ws[i] = uint64(w)
+				}
+				ms = msigString(uint64(m.Threshold), ws, m.Addresses)
+				isMs = true
+			}
+			ex := exported[a]
+			if ex == nil {
+				var has []string
+				if nonce != 0 {
+					has = append(has, fmt.Sprintf("nonce %d", nonce))
+				}
+				if len(bal) > 0 {
+					has = append(has, fmt.Sprintf("%d positive balances", len(bal)))
+				}
+				if isMs {
+					has = append(has, "multisig data "+ms)
+					e.xstats["unexported_multisig"]++
+				}
+				if lock != 0 {
+					has = append(has, fmt.Sprintf("stake lock until %d", lock))
+				}
+				if len(has) > 0 {
+					x.miss("export-misses-account", "%s is not in the %s but the node holds for it: %s", a.String(), who, strings.Join(has, ", "))
+				} else {
+					e.xstats["empty_addresses_absent"]++
+				}
+				return
+			}
+			if isMs && nonce == 0 && len(bal) == 0 {
+				e.xstats["unfunded_unused_multisig_exported"]++
+			}
+			if ex.Nonce != nonce {
+				x.miss("export-misses-nonce", "%s: exported nonce %d, GetNonce %d", a.String(), ex.Nonce, nonce)
+			}
+			if ex.LockStakeUntilBlock != lock {
+				x.miss("export-misses-stake-lock", "%s: exported lock %d, GetLockStakeUntilBlock %d", a.String(), ex.LockStakeUntilBlock, lock)
+			}
+			exBal := map[uint64]string{}
+			for _, b := range ex.Balance {
+				exBal[b.Coin] = b.Value
+			}
+			for c, v := range bal {
+				if exBal[c] != v {
+					x.miss("export-misses-balance", "%s coin %d: exported %q, GetBalances %s", a.String(), c, exBal[c], v)
+				}
+			}
+			for c, v := range exBal {
+				if _, ok := bal[c]; !ok {
+					x.miss("export-misses-balance", "%s coin %d: exported %s, the getter has no positive balance", a.String(), c, v)
+				}
+			}
+			exMs := ""
+			if ex.MultisigData != nil {
+				exMs = msigString(ex.MultisigData.Threshold, ex.MultisigData.Weights, ex.MultisigData.Addresses)
+			}
+			if exMs != ms {
+				x.miss("export-misses-multisig", "%s: exported multisig data %q, the node's %q", a.String(), exMs, ms)
+			}
+		})
+	}
+
+	// ---- coins: every id up to the coin counter (and every exported id)
+	exCoin := map[uint64]*types.Coin{}
+	for i := range st.Coins {
+		exCoin[st.Coins[i].ID] = &st.Coins[i]
+	}
+	ids := map[uint64]bool{}
+	guard("coin counter", func() {
+		for id := uint64(1); id <= uint64(cs.App().GetCoinsCount()); id++ {
+			ids[id] = true
+		}
+	})
+	for id := range exCoin {
+		ids[id] = true
+	}
+	for id := range ids {
+		id := id
+		guard(fmt.Sprintf("coin %d", id), func() {
+			c := cs.Coins().GetCoin(types.CoinID(id))
+			ex := exCoin[id]
+			e.xstats["coins_checked"]++
+			if c == nil {
+				if ex != nil {
+					x.miss("export-invents-coin", "coin %d is exported but GetCoin knows none", id)
+				}
+				return // a hole in the id range is C22's business
+			}
+			if ex == nil {
+				x.miss("export-misses-coin", "coin %d (%s, volume %s) is not in the %s", id, c.GetFullSymbol(), c.Volume(), who)
+				return
+			}
+			owner := ""
+			if info := cs.Coins().GetSymbolInfo(c.Symbol()); info != nil && info.OwnerAddress() != nil {
+				owner = info.OwnerAddress().String()
+			}
+			exOwner := ""
+			if ex.OwnerAddress != nil {
+				exOwner = ex.OwnerAddress.String()
+			}
+			got := fmt.Sprintf("volume=%s reserve=%s crr=%d max=%s version=%d symbol=%s owner=%s", c.Volume(), c.Reserve(), c.Crr(), c.MaxSupply(), c.Version(), c.Symbol().String(), owner)
+			exs := fmt.Sprintf("volume=%s reserve=%s crr=%d max=%s version=%d symbol=%s owner=%s", ex.Volume, orZero(ex.Reserve), ex.Crr, ex.MaxSupply, ex.Version, ex.Symbol.String(), exOwner)
+			if got != exs {
+				x.miss("export-misses-coin", "coin %d: exported {%s}, getters {%s}", id, exs, got)
+			}
+		})
+	}
+
+	// ---- candidates
+	exCand := map[types.Pubkey]*types.Candidate{}
+	for i := range st.Candidates {
+		exCand[st.Candidates[i].PubKey] = &st.Candidates[i]
+	}
+	pks := map[types.Pubkey]bool{}
+	for pk := range e.pks {
+		pks[pk] = true
+	}
+	for pk := range exCand {
+		pks[pk] = true
+	}
+	guard("candidates", func() {
+		for _, c := range cs.Candidates().GetCandidates() {
+			pks[c.PubKey] = true
+		}
+	})
+	for pk := range pks {
+		pk := pk
+		guard("candidate "+pk.String(), func() {
+			c := cs.Candidates().GetCandidate(pk)
+			ex := exCand[pk]
+			e.xstats["pubkeys_checked"]++
+			if c == nil {
+				if ex != nil {
+					x.miss("export-invents-candidate", "%s is exported but GetCandidate knows none", pk.String())
+				}
+				return
+			}
+			if ex == nil {
+				x.miss("export-misses-candidate", "candidate %d %s (status %d) is not in the %s", c.ID, pk.String(), c.Status, who)
+				return
+			}
+			got := fmt.Sprintf("id=%d owner=%s reward=%s control=%s commission=%d status=%d jailed=%d", c.ID, c.OwnerAddress.String(), c.RewardAddress.String(), c.ControlAddress.String(), c.Commission, c.Status, c.JailedUntil)
+			exs := fmt.Sprintf("id=%d owner=%s reward=%s control=%s commission=%d status=%d jailed=%d", ex.ID, ex.OwnerAddress.String(), ex.RewardAddress.String(), ex.ControlAddress.String(), ex.Commission, ex.Status, ex.JailedUntil)
+			if got != exs {
+				x.miss("export-misses-candidate", "%s: exported {%s}, GetCandidate {%s}", pk.String(), exs, got)
+			}
+			cs.Candidates().LoadStakesOfCandidate(pk)
+			var gs, es []string
+			for _, s := range cs.Candidates().GetStakes(pk) {
+				gs = append(gs, fmt.Sprintf("%s:%d:%s", hexs(s.Owner[:]), s.Coin, s.Value))
+			}
+			for _, s := range ex.Stakes {
+				es = append(es, fmt.Sprintf("%s:%d:%s", hexs(s.Owner[:]), s.Coin, s.Value))
+			}
+			sort.Strings(gs)
+			sort.Strings(es)
+			if strings.Join(gs, " ") != strings.Join(es, " ") {
+				x.miss("export-misses-stake", "%s: exported stakes [%s], GetStakes [%s]", pk.String(), clip(strings.Join(es, " "), 300), clip(strings.Join(gs, " "), 300))
+			}
+		})
+	}
+
+	// ---- pools between the known coins
+	exPool := map[[2]uint64]*types.Pool{}
+	pc := map[uint64]bool{0: true}
+	for i := range st.Pools {
+		p := &st.Pools[i]
+		exPool[[2]uint64{p.Coin0, p.Coin1}] = p
+		pc[p.Coin0], pc[p.Coin1] = true, true
+	}
+	var low []uint64
+	for id := range ids {
+		low = append(low, id)
+	}
+	sort.Slice(low, func(i, j int) bool { return low[i] < low[j] })
+	for i, id := range low {
+		if i < 40 || id == 1993 {
+			pc[id] = true
+		}
+	}
+	var pcl []uint64
+	for id := range pc {
+		pcl = append(pcl, id)
+	}
+	sort.Slice(pcl, func(i, j int) bool { return pcl[i] < pcl[j] })
+	for _, c0 := range pcl {
+		for _, c1 := range pcl {
+			if c0 >= c1 {
+				continue
+			}
+			c0, c1 := c0, c1
+			guard(fmt.Sprintf("pool %d-%d", c0, c1), func() {
+				exists := cs.Swap().SwapPoolExist(types.CoinID(c0), types.CoinID(c1))
+				ex := exPool[[2]uint64{c0, c1}]
+				if !exists {
+					if ex != nil {
+						x.miss("export-invents-pool", "pool %d-%d is exported but SwapPoolExist says no", c0, c1)
+					}
+					return
+				}
+				e.xstats["pools_checked"]++
+				r0, r1, id := cs.Swap().SwapPool(types.CoinID(c0), types.CoinID(c1))
+				if ex == nil {
+					x.miss("export-misses-pool", "pool %d-%d (id %d, reserves %s / %s) is not in the %s", c0, c1, id, r0, r1, who)
+					return
+				}
+				if ex.Reserve0 != r0.String() || ex.Reserve1 != r1.String() || ex.ID != uint64(id) {
+					x.miss("export-misses-pool", "pool %d-%d: exported id %d reserves %s / %s, SwapPool id %d reserves %s / %s", c0, c1, ex.ID, ex.Reserve0, ex.Reserve1, id, r0, r1)
+				}
+			})
+		}
+	}
+
+	// ---- used checks among the checks the generator issued
+	used := map[string]bool{}
+	for _, u := range st.UsedChecks {
+		used[strings.ToLower(string(u))] = true
+	}
+	for _, ic := range e.checks() {
+		ic := ic
+		guard("check", func() {
+			c, err := check.DecodeFromBytes(ic.Raw)
+			if err != nil {
+				return
+			}
+			e.xstats["checks_checked"]++
+			hs := hexs(c.Hash().Bytes())
+			if cs.Checks().IsCheckUsed(c) {
+				e.xstats["checks_redeemed"]++
+				if !used[hs] {
+					x.miss("export-misses-used-check", "check %s (issuer %s) was redeemed but is not in UsedChecks of the %s", hs, ic.Issuer.String(), who)
+				}
+			} else if used[hs] {
+				x.miss("export-invents-used-check", "check %s is in UsedChecks but IsCheckUsed says no", hs)
+			}
+		})
+	}
+
+	cats := make([]string, 0, len(x.msgs))
+	for c := range x.msgs {
+		cats = append(cats, c)
+	}
+	sort.Strings(cats)
+	for _, c := range cats {
+		fail(fmt.Sprintf("%s (%s at height %d, %d cases): %s", c, who, n.Height, x.count[c], strings.Join(x.msgs[c], " ; ")))
+	}
+}
+
+func orZero(s string) string {
+	if s == "" {
+		return "0"
+	}
+	return s
+}
+
 type export2 struct {
+	univ      map[types.Address]bool // addresses the current history knows (Hist.Univ, shared: it grows with the history)
+	seenAddrs map[types.Address]bool // addresses mentioned by delivered transactions (same map as univ's source, see ExportMode2)
+	pks       map[types.Pubkey]bool
+	checks    func() []IssuedCheck
+	refresh   func()
+	xstats    map[string]int
 	res       *ModeResult
 	sink      *Sink
 	trace     *os.File
@@ -1053,10 +1508,47 @@ func (e *export2) ask(fn string, args ...string) string {
 	return "no-answer"
 }
 
+// bindUniverse ties the cross-check (5) to a history: what the history knows about addresses, public keys and checks.
+func (e *export2) bindUniverse(h *Hist) {
+	e.seenAddrs = map[types.Address]bool{}
+	watchAddresses(h, e.seenAddrs)
+	e.univ = map[types.Address]bool{}
+	e.pks = map[types.Pubkey]bool{}
+	e.checks = func() []IssuedCheck { return h.W.Checks }
+	e.refresh = func() {
+		for a := range h.Univ {
+			e.univ[a] = true
+		}
+		for a := range e.seenAddrs {
+			e.univ[a] = true
+		}
+		for _, a := range h.W.Addrs {
+			e.univ[a] = true
+		}
+		for _, m := range h.W.Multis {
+			e.univ[m.Addr] = true
+		}
+		for pk := range h.PKs {
+			e.pks[pk] = true
+		}
+		for _, pk := range h.W.PubKeys {
+			e.pks[pk] = true
+		}
+	}
+}
+
+func (e *export2) refreshUniverse() {
+	if e.refresh != nil {
+		e.refresh()
+	}
+}
+
 // checkExport: parts (1) and (2) for one exported state.
 func (e *export2) checkExport(n *Node, st *types.AppState, x tokenExtras, seed int64, perMut int, fail func(string)) {
 	e.nExports++
 	exportFeatures(st, n.Height, e.features)
+	e.refreshUniverse()
+	e.crossCheckExport(n, st, "export", fail)
 	tok := genesisToken(st, x)
 	v, msg := verifyVerdict(st)
 	if v != "ok" {
@@ -1171,6 +1663,8 @@ func (e *export2) roundTrip(h *Hist, st types.AppState, x tokenExtras, o HistOpt
 	if v, msg := verifyVerdict(&st2); v != "ok" {
 		fail("re-export of the imported chain fails validation: " + v + ": " + msg)
 	}
+	e.refreshUniverse()
+	e.crossCheckExport(n2, &st2, "re-export of the imported chain", fail)
 	d1, d2 := DumpState(&st), DumpState(&st2)
 	if diff := Delta(c11Project(d1), c11Project(d2)); len(diff) > 0 {
 		sort.Strings(diff)
@@ -1202,7 +1696,7 @@ func ExportMode2(profile string, baseSeed int64, n int, tier, driver, keep strin
 		return res
 	}
 	e := &export2{res: &res, sink: sink, tracePath: tracePath, r: rand.New(rand.NewSource(baseSeed)), keep: keep, profile: profile, muts: mutations(),
-		perKind: map[string]map[string]int{}, gaps: map[string]map[string]int{}, features: map[string]int{}, verdicts: map[string]int{}, disagree: map[string]int{}}
+		xstats: map[string]int{}, perKind: map[string]map[string]int{}, gaps: map[string]map[string]int{}, features: map[string]int{}, verdicts: map[string]int{}, disagree: map[string]int{}}
 	perMut, perMut2 := 12, 6
 	if tier == "thorough" {
 		perMut, perMut2 = 14, 7
@@ -1230,6 +1724,7 @@ func ExportMode2(profile string, baseSeed int64, n int, tier, driver, keep strin
 		}
 		e.base = types.GetBaseCoin().String()
 		e.nodeOpts = o.Node
+		e.bindUniverse(h)
 		cut := 3 + h.W.Rng.Intn(o.Blocks-6)
 		if h.W.Rng.Intn(100) < 50 {
 			// exports right after a payout block carry no pending stake updates
@@ -1341,6 +1836,7 @@ func ExportMode2(profile string, baseSeed int64, n int, tier, driver, keep strin
 		}
 	}
 	res.Notes["export_features_never_reached"] = never
+	res.Notes["export_vs_getters"] = e.xstats
 	return res
 }
 
